@@ -8,6 +8,7 @@ import (
 	"strconv"
 	"strings"
 
+	"github.com/juev/hledger-lsp/internal/verifsim/simfs"
 	"github.com/juev/hledger-lsp/internal/verifsim/simrt"
 )
 
@@ -18,7 +19,7 @@ func init() { Register(c14{}) }
 
 func (c14) Name() string { return "c14" }
 func (c14) Rule() string {
-	return "full-server simulation over the wire: 8..45 client operations (didOpen/didChange/didSave/didClose/re-open, completion, hover, definition, references, rename, prepareRename, documentSymbol, workspace/symbol, formatting, foldingRange, documentLink, semanticTokens full/range/delta, inlineCompletion, Server.CodeAction through a debug method, didChangeConfiguration with the client answering workspace/configuration immediately, late or never, unknown notifications, requests on closed documents) on 1..4 journal-profile documents carrying version markers, with and without workspace root, hledger found or not (exec-ok), optional transport close; every go statement of the server is a task the simulator schedules under 7 policies with preemption at every lock, sync.Map, disk, clock, exec and client call. Invariants: no panic in any task, no deadlock, no livelock within 20000 steps, and in the -race build (same seeds, happens-before-invisible scheduling) no data-race report. Oracle: no marker of a superseded version of the requesting document in any response; sampled responses must equal, after canonical JSON, the response of a FRESH sequential reference server brought to the same client-visible state (same disk clone, same settings, didOpen of every open document in open order); while background work of the requesting document is still pending the answer may instead equal the cold reference (no analysis has run) or the lagging reference (analysis of the last published version has run, the latest change not yet). Non-trivial: >= 2 server tasks alive at once or a request answered while a task was pending. Distinct: schedule signature + operation kinds."
+	return "full-server simulation over the wire: 8..45 client operations (didOpen/didChange/didSave/didClose/re-open, completion, hover, definition, references, rename, prepareRename, documentSymbol, workspace/symbol, formatting, foldingRange, documentLink, semanticTokens full/range/delta, inlineCompletion, Server.CodeAction through a debug method, didChangeConfiguration with the client answering workspace/configuration immediately, late or never, unknown notifications, requests on closed documents) on 1..4 journal-profile documents carrying version markers, with and without workspace root, hledger found or not (exec-ok), optional transport close; in a quarter of the runs (disk-fault class) journal files are hit by one-shot disk faults (enoent, eio, torn read, stat-small) while only the invariants and the marker oracle are judged, then the faults stop, the server is told about the files they hit (didSave / didOpen+didSave+didClose), every open document is touched, and from then on every compared answer must again equal the fresh reference; every go statement of the server is a task the simulator schedules under 7 policies with preemption at every lock, sync.Map, disk, clock, exec and client call. Invariants: no panic in any task, no deadlock, no livelock within 20000 steps, and in the -race build (same seeds, happens-before-invisible scheduling) no data-race report. Oracle: no marker of a superseded version of the requesting document in any response; sampled responses must equal, after canonical JSON, the response of a FRESH sequential reference server brought to the same client-visible state (same disk clone, same settings, didOpen of every open document in open order); while background work of the requesting document is still pending the answer may instead equal the cold reference (no analysis has run) or the lagging reference (analysis of the last published version has run, the latest change not yet). Non-trivial: >= 2 server tasks alive at once or a request answered while a task was pending. Distinct: schedule signature + operation kinds."
 }
 func (c14) Enumerated(string) int            { return 0 }
 func (c14) Components() ([]string, []string) { return serverComponents() }
@@ -36,6 +37,13 @@ func (c14) Run(ctx *RunCtx) {
 	if c.Pct("chunking", 30) {
 		d.Sess.Chunk = func(max int) int { return 1 + c.Choose("chunk", max) }
 	}
+	// disk-fault class (a quarter of the runs, never mixed with the fault-free
+	// class): while the faults last only the invariants and the marker oracle
+	// are judged; once they stop and the server was told about the files they
+	// hit, every later answer must again equal the fresh reference
+	faultClass := c.Pct("disk-fault-class", 25)
+	faulty := false
+	faultHit := map[string]bool{}
 	cfgCap := c.Pct("cfg-capability", 70)
 	// one well-typed settings payload per run; replies to later configuration
 	// requests repeat it with a different cli path/timeout (which no response
@@ -176,7 +184,7 @@ func (c14) Run(ctx *RunCtx) {
 		// the choice is drawn in both builds so that one seed is one schedule in
 		// the plain and in the -race binary
 		doCompare := c.Pct("compare", 45)
-		if failed || ctx.Race || !(doCompare || echo) {
+		if failed || ctx.Race || faulty || !(doCompare || echo) {
 			return
 		}
 		if echo {
@@ -253,7 +261,76 @@ func (c14) Run(ctx *RunCtx) {
 	}
 	var lastReq *echoReq
 	nops := c.Range("nops", 8, 45)
+	healAt := -1
+	if faultClass {
+		// the workspace is initialised and the first configuration round is over
+		// before the first fault: a server that cannot read its root journal at
+		// start-up is another question than the one asked here
+		answerConfig(true)
+		d.Quiesce()
+		faulty = true
+		healAt = nops/3 + c.Choose("heal-at", nops/3+1)
+		kindsOfFault := []simfs.FaultKind{simfs.FEnoent, simfs.FEio, simfs.FTorn, simfs.FStatSmall}
+		w.Env.Disk.Fault = func(fop, p string, idx int) simfs.Fault {
+			if !faulty || !strings.HasSuffix(p, ".journal") || c.Choose("disk-fault", 10) != 0 {
+				return simfs.Fault{}
+			}
+			k := kindsOfFault[c.Choose("disk-fault-kind", len(kindsOfFault))]
+			switch {
+			case (k == simfs.FEio || k == simfs.FTorn) && fop != "read", k == simfs.FStatSmall && fop != "stat", k == simfs.FEnoent && fop != "stat" && fop != "read":
+				return simfs.Fault{}
+			}
+			faultHit[p] = true
+			ctx.Stats.Inc("fault:" + map[simfs.FaultKind]string{simfs.FEnoent: "enoent-oneshot", simfs.FEio: "eio-oneshot", simfs.FTorn: "torn", simfs.FStatSmall: "toctou-grow"}[k])
+			return simfs.Fault{Kind: k, Arg: c.Choose("torn-keep", 60)}
+		}
+		ctx.T("disk-fault class: one-shot faults (enoent, eio, torn read, stat-small) on journal files until op %d", healAt)
+	}
+	heal := func(op int) {
+		faulty = false
+		w.Env.Disk.Fault = nil
+		// the writers finished: the server is told about every file a fault hit
+		// (open documents are saved; closed ones are opened as they are on disk,
+		// saved and closed), then every open document is touched once
+		var hit []string
+		for p := range faultHit {
+			hit = append(hit, p)
+		}
+		sort.Strings(hit)
+		for _, p := range hit {
+			for _, hd := range w.Docs {
+				if hd.Path != p {
+					continue
+				}
+				switch {
+				case hd.Open && workspace:
+					d.Notify("textDocument/didSave", w.Save(hd))
+				case hd.Open:
+					// no workspace: the disk stays frozen (nothing is written), the
+					// notification alone tells the server that its copy of the file is stale
+					d.Notify("textDocument/didSave", J{"textDocument": docID(hd.URI)})
+				case hd.DiskMark >= 0:
+					d.Notify("textDocument/didOpen", w.OpenWithDisk(hd))
+					d.Notify("textDocument/didSave", J{"textDocument": docID(hd.URI)})
+					d.Notify("textDocument/didClose", J{"textDocument": docID(hd.URI)})
+					hd.Open = false
+				}
+			}
+		}
+		for _, od := range w.OpenDocs() {
+			od.LSPVer++
+			d.Notify("textDocument/didChange", J{"textDocument": J{"uri": od.URI, "version": od.LSPVer}, "contentChanges": []J{{"text": od.Text}}})
+		}
+		answerConfig(true)
+		d.Quiesce()
+		scanOut()
+		ctx.T("op%d faults stop; the server was told about %v and every open document was touched", op, hit)
+		ctx.Stats.Inc("probe:faults-healed-then-compared")
+	}
 	for op := 0; op < nops && !failed && !closed && !d.Livelock; op++ {
+		if faulty && op >= healAt {
+			heal(op)
+		}
 		doc := w.Docs[c.Choose("doc", len(w.Docs))]
 		kind := c.Weighted("op", []int{9, 2, 2, 14, 2, 1, 1})
 		if !doc.Open && kind != 4 && kind != 5 && kind != 6 {
